@@ -240,6 +240,13 @@ def merge_semantics(ctx):
     rej = Callback("reject", False)
     outs, t, so = run([_feat("A", start=10, end=20), _feat("B", start=15, end=30)], merge_criteria=[accept_all, rej])
     ctx.ob("R1", shape(outs) == [("A", []), ("B", [])], "a feature joins exactly when every criterion accepts", func=f, sig="one of two criteria rejects -> %s" % shape(outs))
+    # a nested feature is judged by the criteria like any other
+    calls.clear()
+    outs, t, so = run([_feat("A", start=10, end=60), _feat("B", start=20, end=30)], merge_criteria=[rej])
+    ctx.ob("R1", shape(outs) == [("A", []), ("B", [])], "a feature lying inside the run joins only if the criteria accept it", func=f, sig="nested feature, rejecting criterion -> %s" % shape(outs))
+    outs, t, so = run([_feat("A", start=10, end=60), _feat("B", start=20, end=30), _feat("C", start=40, end=50)], merge_criteria=[rec])
+    asked = sorted({c[1] for c in calls if len(c) == 3 and c[0] != c[1]})
+    ctx.ob("R1", asked == ["B", "C"], "the criteria are asked about every candidate, nested ones included", func=f, sig="criteria asked about %s" % asked, nontrivial=False)
     outs, t, so = run([_feat("A", start=10, end=20), _feat("B", start=15, end=30)], merge_criteria=accept_all)
     ctx.ob("R1", shape(outs) == [("merged(10..30)", ["A", "B"])], "a single criterion may be given without a list", func=f, sig="bare criterion -> %s" % shape(outs), nontrivial=False)
     # ---- R4 inputs untouched / R6 children and re-mergeability
@@ -304,8 +311,10 @@ def r7_r8(ctx):
     feature_init = require_func(ctx, "feature.Feature.__init__")
     ctor_params = set(feature_init.params) - {"self"}
 
+    layout = {"ivs": [("A", 10, 20), ("B", 15, 40), ("C", 100, 120)]}
+
     def stored():
-        return [_feat("A", start=10, end=20), _feat("B", start=15, end=40), _feat("C", start=100, end=120)]
+        return [_feat(n_, start=a_, end=b_) for n_, a_, b_ in layout["ivs"]]
 
     def harness(log):
         it = Interp(ctx)
@@ -390,6 +399,23 @@ def r7_r8(ctx):
     t, log = run(cb, {"feature": _feat("G", ft="gene"), "merge": True})
     ctx.ob("R8", t.result == ("return", 31 + 21), "with merge=True the children are merged first: the result is the size of their union", func=cb,
            sig="merged children -> %s" % (t.result[1:2] if t.result[0] == "return" else t.result[:2],))
+    # the union, whatever the nesting: start-ordered lists of intervals against the number of covered positions
+    import itertools as _it
+    P = 7 if ctx.tier == "thorough" else 5
+    all_ivs = [(a_, b_) for a_ in range(1, P + 1) for b_ in range(a_, P + 1)]
+    combos = [[(1, 7), (2, 3), (5, 6)], [(1, 3), (2, 9), (4, 5), (11, 12)]]
+    for n_ in ((1, 2, 3) if ctx.tier == "thorough" else (2,)):
+        combos += [list(c) for c in _it.product(all_ivs, repeat=n_) if all(c[i][0] <= c[i + 1][0] for i in range(n_ - 1))]
+    bad = None
+    for combo in combos:
+        layout["ivs"] = [("f%d" % i, a_, b_) for i, (a_, b_) in enumerate(combo)]
+        t, log = run(cb, {"feature": _feat("G", ft="gene"), "merge": True})
+        want = len({x for a_, b_ in combo for x in range(a_, b_ + 1)})
+        if t.result != ("return", want) and bad is None:
+            bad = (combo, t.result[1:2] if t.result[0] == "return" else t.result[:2], want)
+    layout["ivs"] = [("A", 10, 20), ("B", 15, 40), ("C", 100, 120)]
+    ctx.ob("R8", bad is None, "children_bp(merge=True) counts every covered position once, nested and chained children included (%d start-ordered child lists)" % len(combos), func=cb,
+           sig="merged children_bp agrees with the number of covered positions" if bad is None else "children %s -> %s, covered positions %s" % bad)
     t, log = run(cb, {"feature": _feat("G", ft="gene"), "merge": True, "merge_criteria": [crit]})
     ctx.ob("R8", t.result == ("return", 111), "...with the given criteria", func=cb, sig="merged with an accept-all criterion -> %s" % (t.result[1:2] if t.result[0] == "return" else t.result[:2],), nontrivial=False)
 
